@@ -334,3 +334,19 @@ class ClientDriver:
         got = []
         self._call(self.svc.handle_keyword_search, keyword_bytes, wait=True, wait_callback_func=lambda fut: got.append(fut.result()))
         return got
+
+
+def fire_one_short_timer(loop):
+    """let virtual time pass up to the earliest armed short timer (the server's cleanup delay) and run what it triggers;
+    returns False if none is armed"""
+    short = [h for h in loop._live_timers() if loop._delays.get(id(h), 0) <= loop.SHORT]
+    if not short:
+        return False
+    from asyncio import events
+    events._set_running_loop(loop)
+    try:
+        loop._fire(min(short))
+    finally:
+        events._set_running_loop(None)
+    settle(loop, timers=False)
+    return True
